@@ -123,7 +123,67 @@ pub fn run(ctx: &Ctx) -> Outcome {
         scenario(ctx, &mut out, &mut rng, idx);
     }
     clock::unfreeze_wall();
+    local_swap_stress(ctx, &mut out);
     out
+}
+
+/// Lane STRESS (in-memory catalog): the publication step of two compactions of the *same* sources
+/// (what happens when a lease expired while its holder was still working and someone else took the
+/// chunks) issued from real threads at the same instant. Exactly one may win; the loser must be refused
+/// and leave nothing behind - otherwise the rows of the sources are there twice. The simulator cannot
+/// reach inside this step on the in-memory catalog (it is one call there).
+fn local_swap_stress(ctx: &Ctx, out: &mut Outcome) {
+    use cardinalsin::ingester::ChunkMetadata;
+    let rounds: u64 = if ctx.thorough { 14 * 4000 } else { 3000 };
+    let my: Vec<u64> = ctx.my_cases(rounds).collect();
+    if my.is_empty() {
+        return;
+    }
+    let rt = tokio::runtime::Builder::new_multi_thread().worker_threads(4).enable_all().build().unwrap();
+    rt.block_on(async {
+        for idx in my {
+            let mut rng = ctx.rng("C03-swap-stress", idx);
+            let local: Arc<dyn MetadataClient> = Arc::new(LocalMetadataClient::new());
+            let nsrc = 1 + rng.usize(3);
+            let sources: Vec<String> = (0..nsrc).map(|i| format!("t/data/src{}.parquet", i)).collect();
+            for s in &sources {
+                let _ = local.register_chunk(s, &ChunkMetadata { path: s.clone(), min_timestamp: 10, max_timestamp: 20, row_count: 5, size_bytes: 50 }).await;
+            }
+            let k = 2 + rng.usize(3);
+            let barrier = Arc::new(std::sync::Barrier::new(k));
+            let mut hs = vec![];
+            for t in 0..k {
+                let (c, b, srcs) = (local.clone(), barrier.clone(), sources.clone());
+                hs.push(tokio::task::spawn_blocking(move || {
+                    let target = format!("t/data/compacted/target{}.parquet", t);
+                    let md = ChunkMetadata { path: target.clone(), min_timestamp: 10, max_timestamp: 20, row_count: 5 * srcs.len() as u64, size_bytes: 100 };
+                    b.wait();
+                    let h = tokio::runtime::Handle::current();
+                    h.block_on(async { c.swap_compacted_chunk(&srcs, &md).await.map_err(|e| e.to_string()) })
+                }));
+            }
+            let mut oks = 0;
+            for h in hs {
+                if let Ok(Ok(())) = h.await {
+                    oks += 1;
+                }
+            }
+            out.eval();
+            out.count("swap_stress.rounds", 1);
+            let listed: Vec<(String, u64)> = local.list_chunks().await.unwrap_or_default().into_iter().map(|c| (c.chunk_path, c.row_count)).collect();
+            let rows: u64 = listed.iter().map(|c| c.1).sum();
+            let want_rows = 5 * nsrc as u64;
+            if oks != 1 || rows != want_rows || listed.len() != 1 {
+                out.violation(
+                    if rows > want_rows { "C03/local/concurrent-swaps-duplicate-rows" } else if rows < want_rows { "C03/local/concurrent-swaps-lose-rows" } else { "C03/local/concurrent-swaps-wrong-outcome" },
+                    &format!("{} concurrent swaps of the same {} source chunk(s) ({} rows): {} reported success, the catalog then lists {:?} ({} rows)", k, nsrc, want_rows, oks, listed, rows),
+                    json!({"lane": "swap-stress", "round": idx, "seed": ctx.seed}),
+                );
+            } else {
+                out.nontrivial(crate::rng::hash_str(&format!("swapstress|{}|{}|{}", idx, k, nsrc)));
+            }
+        }
+    });
 }
 
 struct ScenarioResult {
